@@ -110,8 +110,21 @@ def plain_long(draw):
     return dict(kind='plain-long', kw=dict(script=bytes(body) + b'\x51', stack=[], flags=STD & ~F['CLEANSTACK'], sv=R.BASE))
 
 
+@st.composite
+def p2sh_smallint(draw):
+    """a pay-to-script-hash spend whose redeem script is the single byte 0x81 (OP_RIGHT, with -z) - under MINIMALDATA the only way to push it is OP_1NEGATE,
+    which carries no push payload: the P2SH section of the listing must still show what is going to run"""
+    from ..gen import spends
+    rnd = draw(st.randoms(use_true_random=False))
+    redeem = b'\x81'
+    fund, pos = spends.mk_funding(rnd, b'\xa9\x14' + R.ripemd(R.sha256(redeem)) + b'\x87', 1000)
+    tx, idx, _ = spends.mk_spending(rnd, fund, pos, 1)
+    tx.vin[idx]['script'] = G.push(draw(st.sampled_from([b'\x01\x02', b'abc', b'\x05\x06\x07\x08'])), 1) + draw(st.sampled_from([b'\x51', b'\x52', b'\x00'])) + b'\x4f'
+    return dict(kind='spend-p2sh-smallint', kw=dict(spendtx=tx.ser().hex(), spendtxin=fund.ser().hex(), flags=STD, z=1))
+
+
 def sessions():
-    return st.one_of(plain_base(), plain_base(), p2sh_plain(), plain_long(), SS.legacy_spend(), SS.legacy_spend(), SS.tapscript_spend(), SS.codesep_mock().filter(lambda s: s['kw']['sv'] == R.BASE))
+    return st.one_of(p2sh_smallint(), plain_base(), plain_base(), p2sh_plain(), plain_long(), SS.legacy_spend(), SS.legacy_spend(), SS.tapscript_spend(), SS.codesep_mock().filter(lambda s: s['kw']['sv'] == R.BASE))
 
 
 def cli_args(sess):
@@ -126,6 +139,8 @@ def cli_args(sess):
             mods.append('+' + n)
     if mods:
         args.append('--modify-flags=' + ','.join(mods))
+    if kw.get('z'):
+        args.append('-z')
     if 'spendtx' in kw:
         return args + ['--tx=' + kw['spendtx'], '--txin=' + kw['spendtxin']]
     if kw.get('mock'):
@@ -179,7 +194,16 @@ def expected_listing(sess, init):
         p2sh = bool(kw['flags'] & F['P2SH']) and V.is_p2sh(out['spk'])
         if p2sh:
             ops = [e for e in R.decode(vin['script']) if e is not None]
-            scripts.append(ops[-1][1] if ops and ops[-1][1] is not None else b'')
+            # the redeem script is the VALUE the last operation of the scriptSig leaves on the stack (OP_1NEGATE / OP_1..OP_16 push one byte)
+            last = ops[-1] if ops else None
+            if last is None:
+                scripts.append(b'')
+            elif last[1] is not None:
+                scripts.append(last[1])
+            elif last[0] == 0x4f or 0x51 <= last[0] <= 0x60:
+                scripts.append(bytes([0x81 if last[0] == 0x4f else last[0] - 0x50]))
+            else:
+                scripts.append(b'')
     else:
         scripts = [kw['script']]
         if kw['flags'] & F['P2SH'] and V.is_p2sh(kw['script']) and kw['stack']:
